@@ -333,6 +333,20 @@ def run(ctx, prog):
     ctx.floor('partitioned classes under the accumulation rules', n7, 3)
     ctx.rule('C04-D8', 'dimensional analysis: counters n, sums u n, sums of squares u^2 n (from the kernel); every +/- homogeneous; NICV and SNR u^0 n^0, ANOVA F u^0 n^1')
     ctx.floor('dimension obligations (partitioned metrics)', d8(ctx, prog), 6)
+    ctx.rule('C04-D9', 'the sums and sums of squares are taken of the traces converted to the working precision: no product / power / reduction of raw (narrow integer) inputs in the accumulation kernels')
+    from .. import kernels as _kern, kernelrules as _kr
+    from .c11 import emit as _emit
+    n9 = 0
+    for f_, kind_, call_ in _kern.numba_funcs(prog):
+        if f_.mod.name != PART or kind_ != 'njit':
+            continue
+        res_, prec_ = _kr.precision_taint(prog, f_)
+        if prec_:
+            n9 += 1
+            if not res_:
+                ctx.ok('C04-D9', f'{f_.key}::precision `{prec_}`', 'no arithmetic on raw inputs')
+            _emit(ctx, 'C04-D9', res_)
+    ctx.floor('partitioned accumulation kernels under precision discipline', n9, 2)
     n3 = infnan_rule(ctx, prog, 'C04-D3', {PART})
     ctx.rule('C04-D5', 'extent homogeneity: the size of the declared class set (which counts empty classes) enters each metric with total exponent 0')
     ctx.floor('partitioned classes whose compute closure is checked for purity', d2_purity(ctx, prog), 6)
